@@ -359,6 +359,9 @@ struct FnVisitor<'c> {
 	loop_bodies: Vec<(usize, usize, usize)>,       // ordinal, after-open-brace, close-brace start
 	stmts: Vec<(usize, usize)>,
 	strip_async: bool,
+	/// S1: spans of write-batch operation calls, and spans of expressions directly under `?`
+	batch_ops: Vec<(usize, usize, String)>,
+	tried: Vec<(usize, usize)>,
 }
 
 impl<'c> FnVisitor<'c> {
@@ -688,9 +691,23 @@ impl<'ast, 'c> Visit<'ast> for FnVisitor<'c> {
 		}
 		syn::visit::visit_expr_loop(self, l);
 	}
+	fn visit_expr_try(&mut self, t: &'ast syn::ExprTry) {
+		self.tried.push(br(t.expr.span()));
+		syn::visit::visit_expr_try(self, t);
+	}
 	fn visit_expr_method_call(&mut self, mc: &'ast syn::ExprMethodCall) {
 		let m = mc.method.to_string();
 		let (ws, we) = br(mc.span());
+		const BATCH_WRITES: &[&str] = &["save", "delete", "lock_output", "save_tx_log_entry", "save_child_index",
+			"save_last_confirmed_height", "next_tx_log_id", "save_private_context", "delete_private_context",
+			"commit", "save_acct_path", "save_last_scanned_block", "save_init_status"];
+		if BATCH_WRITES.contains(&m.as_str()) {
+			if let syn::Expr::Path(p) = &*mc.receiver {
+				if p.path.segments.len() == 1 && p.path.segments[0].ident.to_string().contains("batch") {
+					self.batch_ops.push((ws, we, m.clone()));
+				}
+			}
+		}
 		if (m == "to_string" || m == "to_owned") && mc.args.is_empty() {
 			if let syn::Expr::Lit(syn::ExprLit { lit: syn::Lit::Str(_), .. }) = &*mc.receiver {
 				// L13: "literal".to_string() / .to_owned()
@@ -1000,6 +1017,8 @@ fn fn_edits(
 		loop_bodies: vec![],
 		stmts: vec![],
 		strip_async: sig.asyncness.is_some(),
+		batch_ops: vec![],
+		tried: vec![],
 	};
 	for a in attrs {
 		v.visit_attribute(a);
@@ -1131,6 +1150,16 @@ fn fn_edits(
 			}
 		};
 		v.push(pos, pos, vec![Part::Text(format!("\n{}\n", t))], "A4");
+	}
+	// S1 (mechanical soundness condition of the store contract): the result of every write-batch operation is
+	// propagated with `?` — only then does "operation failed ⇒ nothing is committed" describe the code
+	for (a, b, m) in &v.batch_ops {
+		if !v.tried.iter().any(|(x, y)| x == a && y == b) {
+			die(&format!("{}: S1 violated: result of batch.{}(..) is not propagated with `?`", name, m));
+		}
+	}
+	if !v.batch_ops.is_empty() {
+		*v.rules.entry("S1-checked".to_string()).or_insert(0) += v.batch_ops.len();
 	}
 	// check every configured loop / closure ordinal exists
 	for l in cfg.loops.iter().filter(|_| stub.is_none()) {
